@@ -155,21 +155,6 @@ let p_handle (p : string) : string =
           (int_of_nat (p_sel_size cfg s.st_sel.s_c)) (int_of_nat (p_sel_size cfg s.st_sel.s_w))))
       [("e", true); ("s", false)];
     let agree = match !logs with [a; b] -> a = b | _ -> false in
-    (* known finding C16-epoll-hup-chain: EPoller::CheckDescriptor's HUP branch is an else-if chain
-       (read / write / connected), so on a socket registered for reading AND writing whose peer hung up
-       only one of the callbacks runs (connected+write: on_close is never reported).  Region: a socket d with
-       a peer close and a write registration in the scenario whose epoll and select logs differ. *)
-    let natd d = nat_of_int d in
-    let wreq d = List.exists (function POAddW x -> x = natd d | _ -> false) ops
-      || List.exists (fun dc -> List.exists (function PAAddW x -> x = natd d | _ -> false)
-                                  (dc.pc_rs @ dc.pc_ws @ dc.pc_cs)) cfg in
-    let closedp d = List.exists (function POClosePeer x -> x = natd d | _ -> false) ops in
-    let known = match !logs with
-      | [ls; le] ->
-        List.exists (fun d -> (List.nth cfg d).pc_kind = PSock && closedp d && wreq d
-                              && List.nth ls d <> List.nth le d) (List.init n (fun d -> d))
-      | _ -> false in
-    if known then Buffer.add_string b "known=C16-epoll-hup-chain;";
     Buffer.add_string b (Printf.sprintf "agree=%s;" (bool01 agree));
     let all = String.concat "," (List.concat !logs) in
     let has c = String.contains all c in
